@@ -312,6 +312,25 @@ std::int64_t ttl_seconds_remaining(const std::chrono::steady_clock::time_point& 
     return std::chrono::duration_cast<std::chrono::seconds>(expires_at - now).count();
 }
 
+// A field travels as one "KEY:value" line, so line breaks (and the escape character) inside a value are escaped;
+// ControlClient reverses this, which lets multi-line values such as the chunk list arrive intact.
+std::string escape_field_value(const std::string& value) {
+    std::string escaped;
+    escaped.reserve(value.size());
+    for (const char ch : value) {
+        if (ch == '\\') {
+            escaped += "\\\\";
+        } else if (ch == '\n') {
+            escaped += "\\n";
+        } else if (ch == '\r') {
+            escaped += "\\r";
+        } else {
+            escaped.push_back(ch);
+        }
+    }
+    return escaped;
+}
+
 ControlFields make_ok(std::string_view code = "OK") {
     ControlFields fields;
     fields["CODE"] = std::string(code);
@@ -655,7 +674,7 @@ private:
         std::ostringstream oss;
         oss << "STATUS:" << (success ? "OK" : "ERROR") << "\n";
         for (const auto& [key, value] : fields) {
-            oss << key << ':' << value << "\n";
+            oss << key << ':' << escape_field_value(value) << "\n";
         }
         oss << "\n";
         const auto response = oss.str();
